@@ -110,7 +110,27 @@ def o_broadband(a):
     spec = lambda E: a['norm'] * E ** (-a['index'])
     pd = broadband_pol_deg(spec, constant(a['pd']), a['emin'], a['emax'])
     pa = broadband_pol_ang(spec, constant(a['pa']), a['emin'], a['emax'], degrees=False)
-    return abs(pd - a['pd']) < 1e-9 and abs(pa - a['pa']) < 1e-9, dict(pd=float(pd), pa=float(pa))
+    ok = abs(pd - a['pd']) < 1e-9 and abs(pa - a['pa']) < 1e-9
+    obs = dict(pd=float(pd), pa=float(pa))
+    # a constant model is that constant on every kind of grid it is evaluated on: float64, float32 and integer energies / times, scalars
+    grids = [numpy.linspace(2., 8., 7), numpy.linspace(2., 8., 7).astype(numpy.float32), numpy.arange(2, 9), numpy.arange(2, 9, dtype=numpy.int32), 3, 3.5]
+    for c in (a['pd'], a['pa']):
+        for gE in grids:
+            v = numpy.asarray(constant(c)(gE, gE), dtype=float)
+            if numpy.abs(v - c).max() > 1e-12:
+                ok = False
+                obs['constant'] = 'constant(%r) evaluated on %s energies gives %s' % (c, getattr(gE, 'dtype', type(gE).__name__), numpy.atleast_1d(v)[:3])
+    # … and so is its band average computed on an integer grid
+    from ixpeobssim.srcmodel.roi import xPointSource
+    src = xPointSource('p', 10., 10., power_law(a['norm'], a['index']), constant(a['pd']), constant(a['pa']))
+    try:
+        apd, apa = src.calculate_average_polarization(numpy.arange(2, 9), numpy.array([0.]), degrees=False)
+        if abs(float(numpy.atleast_1d(apd)[0]) - a['pd']) > 1e-6 or abs(float(numpy.atleast_1d(apa)[0]) - a['pa']) > 1e-6:
+            ok = False
+            obs['average_on_integer_grid'] = [float(numpy.atleast_1d(apd)[0]), float(numpy.atleast_1d(apa)[0])]
+    except TypeError:
+        pass            # signature differences are not the point here
+    return ok, obs
 
 
 def o_refused(a):
@@ -141,6 +161,23 @@ def o_refused(a):
             ref2 = True
         obs.update(stokes_refused=ref2, stokes_expected=exp2, degrees_from_stokes=[float(x) for x in pd])
         ok = ok and ref2 == exp2
+    if a.get('source_layer') is not None:
+        # the same refusal one layer up: a source whose degree model is unphysical (negative everywhere, negative somewhere, above 1) must not be simulated
+        from ixpeobssim.srcmodel.roi import xPointSource
+        from ixpeobssim.srcmodel.spectrum import power_law
+        from ixpeobssim.srcmodel.polarization import constant
+        kind, val = a['source_layer']
+        model = {'const': constant(val), 'slope': (lambda E, t, ra=None, dec=None: val * numpy.asarray(E, dtype=float))}[kind]
+        src = xPointSource('p', 10., 10., power_law(1., 2.), model, constant(0.3))
+        E = numpy.linspace(2., 8., 50)
+        exp3 = bool((numpy.asarray(model(E, 0. * E), dtype=float) < 0).any() or (numpy.asarray(model(E, 0. * E), dtype=float) > 1).any())
+        try:
+            src._rvs_phi(modf, E, 0. * E, numpy.full(50, 10.), numpy.full(50, 10.))
+            ref3 = False
+        except SystemExit:
+            ref3 = True
+        obs.update(source_refused=ref3, source_expected=exp3)
+        ok = ok and ref3 == exp3
     return ok, obs
 
 
@@ -169,6 +206,9 @@ def gen_comps(g):
     if all(c[1] == 0. for c in comps) and g.uniform() < 0.7:
         comps[0] = (comps[0][0], 0.3, comps[0][2])
     return comps
+
+
+_SL = [0]
 
 
 def explore(chk, budget=1):
@@ -205,7 +245,9 @@ def explore(chk, budget=1):
         st = [(float(r_ * math.cos(t_)), float(r_ * math.sin(t_))) for r_, t_ in zip(g.uniform(0, 1, 4), g.uniform(0, 6.28, 4))]
         if g.uniform() < 0.5:
             st[int(g.integers(0, 4))] = [(0.8, 0.8), (1.0000001, 0.), (-0.9, 0.6), (0., -1.2)][int(g.integers(0, 4))]
-        run_oracle(chk, 'refused', dict(degrees=degs, stokes=st))
+        _SL[0] += 1
+        sl = [('const', -0.2), ('const', -1e-9), ('slope', -0.05), ('const', 0.), ('const', 0.4), ('slope', 0.2), ('const', 1.5), ('slope', 0.1)][_SL[0] % 8]
+        run_oracle(chk, 'refused', dict(degrees=degs, stokes=st, source_layer=sl))
     idx = [1., 2., 0., 3., 1.5, 2.5] + [float(x) for x in numpy.round(g.uniform(-1, 4, 4), 3)]
     run_oracle(chk, 'pl', dict(flux=float(g.uniform(0.1, 10)), eflux=float(10 ** g.uniform(-12, -9)), indices=idx,
                                ranges=[(2., 8.), (float(g.uniform(0.5, 2)), float(g.uniform(4, 12)))]))
